@@ -13,11 +13,11 @@ CLAIMED = {
  "C03": ("crash-freedom of the shared record reader of the utilities (ReadRecordHeader/SkipRecord/ReadRelocInfo on every file of <= 10 arbitrary bytes: no memory fault, documented exit status, every record consumes input) and of the assembler kernels whose inputs used to crash it: integer / and # (incl. -2^63 / -1), shifts, SUBSTR/CHARFROMSTR with arbitrary positions, every sequence of 4 conditional statements incl. stray ones, ALIGN incl. 0; the record loops of p2bin, pbind and p2hex (Intel32, Motorola) on a code file of one record with unconstrained header fields truncated at any length: no fault, no division by zero, bounded loops, exit status 2/3 only; PAGE geometry + symbol-table listing terminate",
          "DESIGN.md C03", "the utilities on files of more than one malformed record, plist as a whole, alink, dasl and the assembler front end on arbitrary source text do not finish under symex (harnesses kept as 'experimental') and are outside the claim"),
  "C05": ("P2BIN image: the real MeasureFile/OpenTarget/ProcessFile/CloseTarget on a code file of 2 records (long/short/entry forms, <= 4 bytes each, any start) with symbolic option state (-r explicit/auto, -l, -m per slice, -S -4..4, -e, -f, -segment, (offset)): every image byte through a witness cell, file length, auto range, entry header, overlap warning; RemoveOffset kernel",
-         "DESIGN.md C05", "one granularity and one -m mode per obligation (2 slices quick, 27 thorough); copy buffer shrunk to 16 bytes, window <= 64 bytes; AddChunk cut to its contract; window start aligned to the lane group; -s checksum, several input files and option text parsing are outside"),
- "C06": ("P2HEX ProcessFile on one data record (1..5 bytes, any start) with symbolic window, -R relocation, -a, line length 2/4, -M, +5, separate terminators: the text written is fed through a printf monitor into an online decoder per format (Intel 8/16/32, Motorola S, MOS): record syntax, count fields, checksums, and every decoded byte equals the source byte at the decoded address, each exactly once and in order",
+         "DESIGN.md C05", "one granularity and one -m mode per obligation; quick: 2 light slices (1 record, window <= 16 bytes, no (offset)), thorough: 27 slices (2 records, window <= 64 bytes); copy buffer shrunk to 16 bytes; AddChunk cut to its contract; windows need not be aligned to the lane group; -s checksum, several input files and option text parsing are outside"),
+ "C06": ("P2HEX ProcessFile on one data record (1..5 bytes, any start) and on two records of 1..2 bytes in either order with symbolic window, -R relocation, -a, line length 2/4, -M, +5, separate terminators: the text written is fed through a printf monitor into an online decoder per format (Intel 8/16/32, Motorola S, MOS): record syntax, count fields, checksums, and every decoded byte equals the source byte at the decoded address, each exactly once and in order",
          "DESIGN.md C06", "granularity 1, -m 0, one record; terminator/entry records of main(), Tektronix/DSK/Atmel/Mico8/C formats and default-format selection are outside; width of narrow %0NX arguments not checked (CBMC variadic model)"),
  "C07": ("PBIND conservation: the real OpenTarget/ProcessFile/CloseTarget + ReadRecordHeader/WriteRecordHeader/SkipRecord/FilterOK on 2 records of every kind with an -f list; the output is re-read by an independent reader and must hold exactly the kept records (CPU, segment, granularity, start, length, payload) in order, terminated by the creator record; PLIST ProcessSingle on 2 data records (long/short form, 0..4 bytes, granularity 1/2/4): family, segment, start, byte length, last address per line and per-segment totals through the printf monitor",
-         "DESIGN.md C07", "PLIST main() (option parsing, summary printing) and relocation-info records not covered; pbind: 2 records x <= 2 payload bytes; copy buffer shrunk to 16 bytes; takes about 18 minutes"),
+         "DESIGN.md C07", "PLIST main() (option parsing, summary printing) and relocation-info records not covered; pbind: quick with the two record kinds fixed per obligation (long+short, $82+long), all kinds in the thorough tier; 2 records x <= 2 payload bytes; copy buffer shrunk to 16 bytes; takes about 18 minutes"),
  "C08": ("operator bodies of operator.c (all 64-bit operand pairs; floats in stated sub-domains) and the operator table vs the manual's operator table",
          "DESIGN.md C08", "CBMC bit-precise integer/IEEE semantics; diag.c stub for the error interface; relocations cut; operator split inside EvalStrExpression, libm results, literals and functions not yet covered are outside the claim"),
  "C09": ("IEEE half/single/double/extended encoders of ieeefloat.c for every double bit pattern and both byte orders vs bit-level statements of IEEE-754 RNE / the x87 layout",
